@@ -10,10 +10,12 @@ def plain_bytes(t):
         t = t.detach()
         if t.device.type != "cpu":
             t = t.cpu()
-        t = t.contiguous()
         if t.numel() == 0:
             return b""
-        return t.reshape(-1).view(torch.uint8).numpy().tobytes()
+        flat = t.contiguous().reshape(-1)
+        if flat.stride(0) != 1:  # size-1 dims may keep arbitrary strides
+            flat = flat.clone(memory_format=torch.contiguous_format)
+        return flat.view(torch.uint8).numpy().tobytes()
 
 
 def is_wrapper(t):
